@@ -96,7 +96,7 @@ Fixpoint ast_type_name (fuel : nat) (vs : vars F) (a : ast F) : str :=
   | AMonth _ => s "MONTH"
   | ABinary _ _ _ => s "BINARY"
   | APrefixUnary _ a' => match fuel with O => s "NONE" | S f => ast_type_name f vs a' end
-  | AAssignment _ _ => s "ASSIGNMENT"
+  | AAssignment _ _ _ => s "ASSIGNMENT"
   | ASymbol _ => s "SYMBOL"
   | AVariable n =>
     match fuel with
